@@ -224,6 +224,14 @@ psf_store_read_chunk_str (READ_CHUNKS * pchk, const char * marker_str, sf_count_
 } /* psf_store_read_chunk_str */
 
 int
+psf_chunk_id_is_printable (const SF_CHUNK_INFO * chunk_info)
+{	uint32_t marker = marker_of_str (chunk_info->id) ;
+
+	return psf_isprint ((marker >> 24) & 0xFF) && psf_isprint ((marker >> 16) & 0xFF)
+			&& psf_isprint ((marker >> 8) & 0xFF) && psf_isprint (marker & 0xFF) ;
+} /* psf_chunk_id_is_printable */
+
+int
 psf_save_write_chunk (WRITE_CHUNKS * pchk, const SF_CHUNK_INFO * chunk_info)
 {	uint32_t marker, len ;
 
